@@ -291,7 +291,7 @@ def c19(tier, seed):
     from . import exact, vocabs
     res = core.Result("C19", tier, seed)
     q = tier == "quick"
-    j1 = exact.tok_job("C19", seed, 90 if q else 3000)
+    j1 = exact.tok_job("C19", seed, 64 if q else 3000)
     # (b) text grammars; plus the recorded finding: complement lets special tokens in
     j2 = exact.regex_job("C19", seed, 20 if q else 800)
     j2["episodes"].insert(0, {"gid": "kf:complement-allows-special-tokens", "mode": "C19", "seed": 1, "steps": 0,
@@ -304,7 +304,7 @@ def c19(tier, seed):
 
     def go(p):
         tag, part, job, module = p
-        return part, rel.drive_and_validate(tag, tier, seed, job, res, nshards=6 if q else 16, module=module, timeout=7200)
+        return part, rel.drive_and_validate(tag, tier, seed, job, res, nshards=10 if q else 16, module=module, timeout=7200)
 
     for part, rejects in core.parallel(go, parts, workers=3 if q else 1):
         for rj in rejects:
